@@ -118,7 +118,15 @@ func (m *Variant) Value() interface{} {
 
 // Decode implements the codec interface.
 func (m *Variant) Decode(b []byte) (int, error) {
+	return m.decodeDepth(b, 0)
+}
+
+func (m *Variant) decodeDepth(b []byte, depth int) (int, error) {
+	if depth > maxDecodeDepth {
+		return 0, StatusBadEncodingLimitsExceeded
+	}
 	buf := NewBuffer(b)
+	buf.depth = depth
 	m.mask = buf.ReadByte()
 
 	// a null value specifies that no other fields are encoded
